@@ -234,7 +234,7 @@ def bisect_meet(pl, a, b, n=80):
     return (abs(ga) <= 1e-7 * scale and abs(gb) <= 1e-7 * scale), (a + b) / 2
 
 
-def check_system(ctx, pl, fl, marginal, classes):
+def check_system(ctx, pl, fl, marginal, classes, history='built, then searched'):
     """every clause of the property on one pump/pipeline system"""
     desc = G.describe(pl)
     ctx.count('evaluations')
@@ -255,6 +255,19 @@ def check_system(ctx, pl, fl, marginal, classes):
                       key='qimin-local-minimum' if local else 'qimin')
     out, _ = run_system(pl, fl)
     modes = tuple(sorted(s.limited for s in pl.pumps))
+    # the same system built afresh (own pump and slurry objects, no call history): "the pump is below the system" and "heads are equal" are statements
+    # about the system, not about the state this particular object happens to be in
+    ref = None
+    try:
+        with warnings.catch_warnings():
+            warnings.simplefilter('ignore')
+            ref = G.rebuild(desc)
+            rs_min, _, _, rp_min = ref.calc_system_head(qimin)
+    except Exception:   # noqa
+        ref = None
+    if ref is not None and out[0] == 'flow' and rs_min > rp_min * (1 + 1e-6) + 1e-9 and hs_min <= hp_min:
+        ctx.violation(f'built afresh, this system has pump head {rp_min!r} below system head {rs_min!r} at the minimum-friction flow {qimin!r}; this pipeline object '
+                      f'(after its history: {history}) says {hp_min!r} / {hs_min!r} and returns {out}', {'pipeline': desc, 'history': history}, key='infeasible')
     if out[0] == 'other':
         ctx.violation(f'find_operating_point raised {out[1]}: {out[2]}', {'pipeline': desc, 'qimin': qimin}, key='other-exception:' + out[1])
         return
@@ -265,6 +278,16 @@ def check_system(ctx, pl, fl, marginal, classes):
         hs, _, _, hp = pl.calc_system_head(q)
         if not (is_real_finite(q) and abs(hs - hp) <= 1e-6 * max(abs(hs), abs(hp), 1.0)):
             ctx.violation(f'returned flow {q!r} has system head {hs!r} and pump head {hp!r}', {'pipeline': desc}, key='heads-differ')
+        elif ref is not None:
+            try:
+                with warnings.catch_warnings():
+                    warnings.simplefilter('ignore')
+                    rs, _, _, rp = ref.calc_system_head(q)
+                if not abs(rs - rp) <= 1e-6 * max(abs(rs), abs(rp), 1.0):
+                    ctx.violation(f'at the returned flow {q!r} the same system built afresh has system head {rs!r} and pump head {rp!r} (this pipeline object, after its '
+                                  f'history: {history}, reports {hs!r} / {hp!r})', {'pipeline': desc, 'history': history}, key='heads-differ')
+            except Exception as e:   # noqa
+                ctx.violation(f'heads of the system built afresh at the returned flow raised {type(e).__name__}: {e}', {'pipeline': desc}, key='heads-differ')
     if hs_min <= hp_min:
         hl, _, _, pl_ = pl.calc_system_head(fl[-1])
         if hl > pl_:
@@ -310,6 +333,25 @@ def monitor(ctx, extended=False):
         if pl is None:
             continue
         fl = flow_list_of(pl)
+        if it % 10 == 7:
+            # two pipelines that share their section objects (the same pumps on two lines) but carry different slurries: each is searched after the other was
+            # built / searched
+            try:
+                from DHLLDV.PipeObj import Pipeline
+                p2 = dict(pl.slurry._params)
+                p2['Cv'] = 0.1 if p2['Cv'] > 0.2 else 0.3
+                s2 = E.make_slurry(p2)
+                s2._params = p2
+                with warnings.catch_warnings():
+                    warnings.simplefilter('ignore')
+                    pl2 = Pipeline(name='second line, same pumps', pipe_list=list(pl.pipesections), slurry=s2)
+            except Exception:   # noqa
+                pl2 = None
+            if pl2 is not None:
+                check_system(ctx, pl, fl, 'shared-pumps', classes, history='a second pipeline with another slurry was built from the same pump objects')
+                check_system(ctx, pl2, flow_list_of(pl2), 'shared-pumps', classes, history='built from the pump objects of a pipeline that was searched before')
+                check_system(ctx, pl, fl, 'shared-pumps', classes, history='searched again after the second pipeline sharing its pumps was searched')
+                continue
         marginal = r < 0.3
         if marginal:
             tune_marginal(ctx.rng, pl, fl)
